@@ -403,6 +403,12 @@ def pandas_dtype_strategy(
     if strategy is not None:
         if _is_datetime_tz(pandera_dtype):
             return _datetime_strategy(pandera_dtype.type, strategy)  # type: ignore
+        if is_datetime(pandera_dtype):
+            # np.datetime64(<Timestamp>) goes through datetime.datetime and
+            # drops the nanoseconds
+            return strategy.map(lambda x: pd.Timestamp(x).to_datetime64())
+        if is_timedelta(pandera_dtype):
+            return strategy.map(lambda x: pd.Timedelta(x).to_timedelta64())
         return strategy.map(np_dtype.type)
     elif is_datetime(pandera_dtype) or is_timedelta(pandera_dtype):
         return numpy_time_dtypes(
